@@ -424,7 +424,13 @@ void execute(const Json& program, const sim::Config& cfg, const std::string&) {
         if (nl.rlim_cur < old.rlim_cur) setrlimit(RLIMIT_NOFILE, &nl);
         g_extra["runs_with_small_handle_budget"]++;
     }
-    sim::run(cfg, [&] { body(program, root); });
+    sim::run(cfg, [&] {
+        try {
+            body(program, root);
+        } catch (const std::exception& e) {  // valid use of the API must not throw: an escaping exception is an outcome to report, not a harness error
+            sim::violation("unexpected-exception", std::string("exception escaped from tulz under valid use: ") + e.what());
+        }
+    });
     setrlimit(RLIMIT_NOFILE, &old);
     if (chdir(home.c_str()) != 0) _exit(13);
     remove_tree(root);
